@@ -197,7 +197,14 @@ func specFor(kind certKind, cn, otherCN string, serial *big.Int, now time.Time) 
 
 func timeValid(k certKind) bool   { return k != kExpired && k != kNotYet }
 func clientUsage(k certKind) bool { return k != kServerOnly }
+
+// selfIssued: the canonical form (one CN, issuer = subject) that the gateway must accept when genuine;
+// everything else that is genuine is left to the implementation
 func selfIssued(k certKind) bool {
-	return k != kIssuerCA && k != kIssuerTenant && k != kSelfIssuerTenant
+	switch k {
+	case kIssuerCA, kIssuerTenant, kSelfIssuerTenant, kMultiCNOtherFirst, kMultiCNTenantFirst:
+		return false
+	}
+	return true
 }
 func cnIsAccount(k certKind) bool { return k != kCNNotBech32 && k != kCNOtherPrefix }
